@@ -951,6 +951,8 @@ class Exec:
         if isinstance(l, VExt):
             if l is r:
                 return z3.BoolVal(True)
+            if l.name != r.name and not l.args and not r.args:
+                return z3.BoolVal(False)          # distinct named atoms (scenario constants)
             raise ToolLimit('comparison of opaque external values')
         if isinstance(l, VClass):
             return z3.BoolVal(l.qual == r.qual)
